@@ -88,8 +88,20 @@ def run_real(names, ks, sets, gnames, reverse=False):
             if hasattr(s, "defined"):
                 s.defined = OSet(s.defined)
             s = s.parent
+        def snapshot():
+            out, sc = [], inner.parent
+            while sc is not None:
+                out.append((frozenset(getattr(sc, "defined", ())), tuple(sorted(getattr(sc, "bindings", {}).items()))))
+                sc = sc.parent
+            return out
+        before = snapshot()
         res = hs.ResolveOuterVars().visit_OuterVar(node)
+        after = snapshot()
     finally:
         if "set" in hs.__dict__:
             del hs.__dict__["set"]
-    return [(type(r).__name__, list(r.names)) for r in res]
+    out = [(type(r).__name__, list(r.names)) for r in res]
+    if before != after:
+        # frame condition: resolving a declaration only reads the enclosing scopes
+        out.append(("SCOPES-MODIFIED", [sorted(a[0]) for a in after]))
+    return out
